@@ -14,13 +14,13 @@ Print Assumptions C17_only_ipv4_reachable.
 
 (* create succeeds iff the name is valid and not present; a refusal creates nothing *)
 Theorem C17_create_iff : forall existing name,
-  snd (create_bucket existing name) = true <->
+  snd (name_create existing name) = true <->
   valid name = true /\ existsb (beq name) existing = false.
 Proof. exact create_iff. Qed.
 Print Assumptions C17_create_iff.
 
 Theorem C17_refused_creates_nothing : forall existing name,
-  snd (create_bucket existing name) = false -> fst (create_bucket existing name) = existing.
+  snd (name_create existing name) = false -> fst (name_create existing name) = existing.
 Proof. exact create_refused_creates_nothing. Qed.
 Print Assumptions C17_refused_creates_nothing.
 
